@@ -36,8 +36,17 @@ meta["demo_exit_without_change"] = d0.returncode
 meta["demo_output_with_change"] = (d1.stdout + d1.stderr)[-600:]
 meta["confirmed"] = bool(meta["suite_passes"] and d1.returncode == 1 and d0.returncode == 0)
 res = {}
+# the checks run against the CURRENT /repo sources with the change applied on a scratch copy (the worktree may be older
+# than later fix: commits)
+import tempfile
+scratch = tempfile.mkdtemp(prefix="pvseed_")
+shutil.copytree("/repo/src", os.path.join(scratch, "src"), ignore=shutil.ignore_patterns("__pycache__", "test"))
+ap = subprocess.run(["patch", "-p1", "-s", "--no-backup-if-mismatch"], input=patch, cwd=scratch, capture_output=True, text=True)
+meta["patch_applies_to_current_repo"] = ap.returncode == 0
+if ap.returncode != 0:
+    print("patch does not apply to the current tree:", ap.stdout[-300:], ap.stderr[-300:])
 for c in checks:
-    e2 = dict(os.environ, VERIF_REPO=wt, VERIF_NO_EVIDENCE="1", VERIF_REPLAY_DIR=os.path.join(wt, "_replays"))
+    e2 = dict(os.environ, VERIF_REPO=scratch, VERIF_NO_EVIDENCE="1", VERIF_REPLAY_DIR=os.path.join(wt, "_replays"))
     t1 = time.time()
     rr = subprocess.run([os.path.join(ROOT, "check"), c, "--tier", "quick"], env=e2, capture_output=True, text=True)
     tags = sorted({l.split("replay=")[1].split("/")[-1].rsplit("_", 1)[0] for l in rr.stdout.splitlines() if l.startswith("VIOLATION")})
@@ -45,9 +54,10 @@ for c in checks:
     res[c] = {"exit": rr.returncode, "verdict": {0: "missed", 1: "caught", 2: "inconclusive"}.get(rr.returncode, "?"), "tags": tags,
               "first_messages": first, "wall_s": round(time.time() - t1, 1)}
 shutil.rmtree(os.path.join(wt, "_replays"), ignore_errors=True)
+shutil.rmtree(scratch, ignore_errors=True)
 meta["checks_run"] = res
 meta["what_i_ran"] = ["pytest -n 8 src/pandapipes/test in the worktree with PYTHONPATH=<worktree>/src", "DEMO.py with the change / with the change reverse-applied",
-                      "./check <id> --tier quick with VERIF_REPO=<worktree>"]
+                      "./check <id> --tier quick with VERIF_REPO=<scratch copy of the current /repo/src with the patch applied>"]
 out = os.path.join(ROOT, "seeded", sid)
 os.makedirs(out, exist_ok=True)
 open(os.path.join(out, "patch.diff"), "w").write(patch)
